@@ -438,7 +438,7 @@ pub fn parse_trace(log: &str) -> Vec<TraceLine> {
         let is_begin = !begun && name == "writev" && t.contains("BEGIN");
         out.push(TraceLine {
             name: name.to_string(),
-            text: truncate(t, 160),
+            text: truncate(t, 400),
             k: *k,
             after_begin: begun,
             is_begin,
